@@ -171,6 +171,13 @@ def gen(seed, tier):
                 st['kw'] = {'gas_limit': rng.choice([5000, 100000]), 'storage_limit': rng.choice([0, 300])}
             if op == 'send' and rng.random() < 0.15:
                 st['kw'] = {'gas_reserve': rng.choice([0, 500]), 'burn_reserve': rng.choice([0, 50])}
+            if op in ('fill', 'autofill', 'send') and rng.random() < 0.15:
+                # documented, rarely used: the time-to-live of the operation (selects the branch block); -1 = maximum
+                st.setdefault('kw', {})['ttl'] = rng.choice([1, 5, 60, 120] + ([-1] if op != 'send' else []))
+            if op == 'fill' and rng.random() < 0.1:
+                st.setdefault('kw', {})['minimal_nanotez_per_gas_unit'] = rng.choice([100, 250])
+            if op == 'inject' and st.get('minconf') and rng.random() < 0.3:
+                st['wait'] = rng.choice([2, 5, 20])
             if op == 'inject' and rng.random() < 0.2:
                 st['prevalidate'] = False
             faults = {}
